@@ -869,9 +869,12 @@ pub fn anytext_input(rng: &mut Rng) -> (String, String) {
         if mode == 9 {
             if rng.chance(1, 3) {
                 // an undeclared name of unusual shape, assigned or read
-                let n = proggen::odd_name(rng);
+                // ... or a name that is close to several declared ones (a prefix of two built-in names; another capitalisation
+                // of three declared wires): whatever the diagnostic suggests must not depend on the run
+                let n = if rng.chance(1, 3) { String::from(*rng.pick(&["reg_src", "reg_dst", "reg_output", "reg_input", "REG_SRCA", "stat", "Kk"][..])) } else { proggen::odd_name(rng) };
                 let at = rng.below(g.stmts.len() as u64 + 1) as usize;
-                let stmt = if rng.chance(1, 2) { format!("{} = 1;", n) } else { format!("wire zz9:8; zz9 = {} + 1;", n) };
+                let stmt = if n == "Kk" { String::from("wire kk:8; kk = 1; wire KK:8; KK = 2; wire kK:8; kK = 3; wire zz8:8; zz8 = Kk + 1;") }
+                    else if rng.chance(1, 2) { format!("{} = 1;", n) } else { format!("wire zz9:8; zz9 = {} + 1;", n) };
                 g.stmts.insert(at, proggen::Stmt::Raw(stmt));
             } else { proggen::inject_fault(rng, &mut g); }
         }
